@@ -10,6 +10,8 @@ K == INSTANCE KernelExec
 
 Rlim(in) == IF in.rlim = 0 THEN 2000000000 ELSE in.rlim
 TooLong(in) == \E g \in DOMAIN in.groups : in.groups[g].count > 0 /\ in.groups[g].len + 1 > STRMAX
+EnvCost(in) == in.env.count * (in.env.size + 9 + PTR)
+MaybeUnfit(in) == \E g \in DOMAIN in.groups : in.groups[g].count > 0 /\ in.groups[g].len + 20000 + EnvCost(in) > K!KLimit(Rlim(in))
 Total(in) == SumSeq([g \in DOMAIN in.groups |-> in.groups[g].count])
 
 \* the harness could not even start xargs with this environment under this stack limit: nothing to judge
@@ -30,6 +32,10 @@ Conforms(in, obs) ==
        /\ \A j \in DOMAIN obs.execs : obs.execs[j].maxarg + 1 <= STRMAX      \* an over-long argument is never handed to exec
        /\ IF TooLong(in)
           THEN obs.exit = 1 /\ obs.order_ok                   \* reported as such; what was run before it is intact
+          ELSE IF MaybeUnfit(in)
+          THEN \* a single argument about as large as everything the kernel grants under this stack limit and
+               \* environment: delivered, or reported as too large - never handed to exec to fail there
+               (obs.exit = 0 /\ obs.delivered = Total(in) /\ obs.order_ok) \/ (obs.exit = 1 /\ obs.order_ok)
           ELSE obs.exit = 0 /\ obs.delivered = Total(in) /\ obs.order_ok      \* every argument delivered exactly once, in order
 
 Describe(in) == [toolong |-> IF in.mode = "probe" THEN FALSE ELSE TooLong(in)]
